@@ -83,6 +83,13 @@ def cases(rng, tier):
                     ("array<mat4x4<f32>, 4096>", {"bm_host": True, "bm_vertex": True}), ("array<vec4<u32>, 4096>", {"bm_host": True, "serde": False, "mv": "Glam"})):
         out.append({"wgsl": "struct BigTable { rows: %s }\n@group(0) @binding(0) var<storage, read> big_table: BigTable;\n"
                             "@compute @workgroup_size(1) fn main() { _ = big_table.rows[0]; }\n" % decl, "family": "large_host_struct", "opts": dict(o)})
+    # every storage texture format of WGSL in one module: each names a TextureFormat variant of wgpu 24
+    fmts = ["rgba8unorm", "rgba8snorm", "rgba8uint", "rgba8sint", "rgba16uint", "rgba16sint", "rgba16float", "r32uint", "r32sint", "r32float",
+            "rg32uint", "rg32sint", "rg32float", "rgba32uint", "rgba32sint", "rgba32float", "bgra8unorm", "r8unorm", "r8snorm", "r8uint", "r8sint",
+            "r16uint", "r16sint", "r16float", "rg8unorm", "rg8snorm", "rg8uint", "rg8sint", "rg16uint", "rg16sint", "rg16float", "rgb10a2uint",
+            "rgb10a2unorm", "rg11b10float", "r16unorm", "r16snorm", "rg16unorm", "rg16snorm", "rgba16unorm", "rgba16snorm"]
+    w = "".join("@group(%d) @binding(%d) var st_%s: texture_storage_2d<%s, write>;\n" % (k // 16, k % 16, f_, f_) for k, f_ in enumerate(fmts))
+    out.append({"wgsl": w + "@compute @workgroup_size(1) fn main() { _ = textureDimensions(st_rgba8unorm); }\n", "family": "all_storage_formats", "opts": {}})
     # bindings of ONE group whose names are equal up to the naming convention: different variables, different fields
     for names_ in (("baseColor", "base_color"), ("shadowMap", "shadow_map", "ShadowMap"), ("uTime", "u_time", "utime")):
         w = "".join("@group(0) @binding(%d) var<uniform> %s: vec4<f32>;\n" % (k, n_) for k, n_ in enumerate(names_))
